@@ -82,4 +82,38 @@ theorem C06_identity (fs : Fs) (incs : List Bytes) (s path : Bytes) (d : Defines
   · intro i hi
     exact idOut_origin path _ (copyOut_chain (toInput s) path (leavesL sds) {} 0 (toInput s).size ⟨tiled_empty, by simp⟩ rfl hchain).1 i hi
 
+
+
+theorem toInput_size (s : Bytes) : (toInput s).size = s.length := by
+  simp [toInput, ByteArray.size]
+
+theorem byteAt_toInput (s : Bytes) (i : Nat) (h : i < s.length) (hb : ∀ b ∈ s, b < 256) :
+    byteAt (toInput s) i = some (s[i]) := by
+  unfold byteAt
+  have hs : i < (toInput s).size := by rw [toInput_size]; exact h
+  simp only [hs, dite_true]
+  have hlt : s[i] < 256 := hb _ (List.getElem_mem h)
+  simp [toInput, ByteArray.getElem_eq_getElem_data, UInt8.toNat_ofNat', Nat.mod_eq_of_lt hlt]
+
+/-- a byte list (all values < 256) survives the round trip through the byte array the parser works on -/
+theorem sliceBytes_toInput (s : Bytes) (hb : ∀ b ∈ s, b < 256) : sliceBytes (toInput s) 0 (toInput s).size = s := by
+  rw [toInput_size]
+  apply List.ext_getElem
+  · simp [sliceBytes]
+  · intro i h1 h2
+    simp only [sliceBytes, List.getElem_map, List.getElem_range, Nat.zero_add]
+    rw [byteAt_toInput s i h2 hb]; rfl
+
+/-- `C06_identity` with the text clause in terms of the input string itself (bytes are < 256) -/
+theorem C06_identity_text (fs : Fs) (incs : List Bytes) (s path : Bytes) (d : Defines) (ii : Bool) (rd id : Nat) (hid : id ≤ recursiveLimit)
+    (fuel q : Nat) (r : Rec) (kpp : Nat) (sds : List Tree) (st' : PState) (hb : ∀ b ∈ s, b < 256)
+    (hparse : ppParse (toInput s) {} (4000 + 400 * (toInput s).size) = (.ok q r [.node kpp sds], st'))
+    (hpp : inert ppKinds (.node kpp sds) = true) (hplain : ∀ t ∈ sds, PlainSD ppKinds t)
+    (hfuel : 6 * sds.length + 4 ≤ fuel) :
+    ∃ out dd, preprocessStr ⟨ppKinds, grammar, fs, incs⟩ fuel s path d ii false rd id = .ok (out, dd) ∧ out.text = s ∧
+      (∀ i, i < s.length → out.origin i = some (path, i)) := by
+  obtain ⟨out, dd, h1, h2, h3, _⟩ := C06_identity fs incs s path d ii rd id hid fuel q r kpp sds st' hparse hpp hplain hfuel
+  have ht : out.text = s := by rw [h2, sliceBytes_toInput s hb]
+  exact ⟨out, dd, h1, ht, fun i hi => h3 i (by rw [ht]; exact hi)⟩
+
 end Sv
